@@ -388,7 +388,7 @@ type Witness struct {
 }
 
 func (ex *Executor) maybeWitness(st *State) {
-	if ex.WitnessMax == 0 || len(st.ND) == 0 {
+	if ex.WitnessMax == 0 || len(st.ND) == 0 || st.Ghost["witness.skip"] != nil {
 		return
 	}
 	for _, r := range st.ND {
@@ -1809,6 +1809,7 @@ func (ex *Executor) zeroOrNil(t types.Type) Val {
 func (ex *Executor) strLen(st *State, x *smt.Term) *smt.Term {
 	l := smt.StrLen(x)
 	if !l.IsConst() {
+		st.Ghost["witness.skip"] = smt.True // model string lengths cannot be honoured when decoding a witness
 		st.addPC(smt.Ge(l, smt.IntC(0)))
 		st.addPC(smt.Eq(smt.Eq(l, smt.IntC(0)), smt.Eq(x, smt.StrC(""))))
 	}
